@@ -172,6 +172,28 @@ func init() {
 							idx++
 						}
 					}
+					// a self call at every leaf position of the shape (tail or not): (f 2)
+					nl := countLeaves(sh)
+					for pos := 1; pos <= nl; pos++ {
+						for pi := 0; pi < 2; pi++ {
+							if !c.mine(idx) {
+								idx++
+								continue
+							}
+							k := 0
+							pat := pats[pi]
+							body := asNode(fillLeaves(cloneTree(sh), &k, func(i int) node {
+								if i == pos {
+									return nCall(nSym("f"), nApp("-", nSym("n"), nInt(1)))
+								}
+								return nApp("tr", nInt(i), pat(i))
+							}))
+							def := nDefn("f", strict("n"), "", nCond([]clause{{nApp("<=", nSym("n"), nInt(0)), nApp("tr", nInt(99), nInt(pi))}}, body))
+							prog := []node{def, nCall(nSym("f"), nInt(2))}
+							w.write(runSem(fmt.Sprintf("selfpos-%d-%d-%d", si, pos, pi), sl, prog, renderProgram(prog, nil)))
+							idx++
+						}
+					}
 				}
 				continue
 			}
